@@ -6,6 +6,7 @@ import (
 	"fmt"
 	"go/types"
 	"math/big"
+	"strconv"
 	"strings"
 
 	"golang.org/x/tools/go/ssa"
@@ -82,6 +83,8 @@ type WriteSet struct {
 	ObjPaths map[string]objPath // key: objID + path
 	HeapRefs map[string]heapRef // key: leaf + ref id
 	WholeHeap map[string]bool   // leaf keys havoced entirely
+	FreshStart int             // discovery: value of the fresh-symbol counter when the loop was entered
+	NameStart  int             // same for the counter behind freshName
 	Ghosts   map[string]bool
 	MaxID    int
 }
@@ -645,7 +648,14 @@ func (c *Ctx) heapWrite(st *State, elem types.Type, ref, idx *Term, path []int, 
 func (c *Ctx) noteHeapWrite(st *State, lf leaf, ref *Term) {
 	k := lf.Key + "@" + fmt.Sprint(ref.id)
 	if st.Disc != nil {
-		st.Disc.HeapRefs[k] = heapRef{Leaf: lf.Key, Ref: ref, Sort: ArraySort(c.IntSort(), lf.Sort)}
+		if st.Disc.NameStart > 0 && mentionsFreshAfter(ref, st.Disc.FreshStart, st.Disc.NameStart) {
+			// the region written is named by a symbol created inside the loop body (e.g. the slice a callee's
+			// contract hands back): it has another name on every pass, and it may be any region - the whole leaf
+			// is havoced at the cut
+			st.Disc.WholeHeap[lf.Key] = true
+		} else {
+			st.Disc.HeapRefs[k] = heapRef{Leaf: lf.Key, Ref: ref, Sort: ArraySort(c.IntSort(), lf.Sort)}
+		}
 	}
 	for _, ws := range st.Record {
 		if ws.WholeHeap[lf.Key] {
@@ -1200,4 +1210,34 @@ func pathInts(p []PathElem) []int {
 		r = append(r, e.Field)
 	}
 	return r
+}
+
+// mentionsFreshAfter: t contains a fresh symbol (name!N) created after the counter stood at n
+func mentionsFreshAfter(t *Term, n, m int) bool {
+	seen := map[*Term]bool{}
+	var walk func(*Term) bool
+	walk = func(x *Term) bool {
+		if x == nil || seen[x] {
+			return false
+		}
+		seen[x] = true
+		if x.Op == "var" {
+			if i := strings.LastIndex(x.Name, "!"); i >= 0 {
+				if k, err := strconv.Atoi(x.Name[i+1:]); err == nil && k > n {
+					return true
+				}
+			} else if i := strings.LastIndex(x.Name, "_"); i >= 0 {
+				if k, err := strconv.Atoi(x.Name[i+1:]); err == nil && k > m {
+					return true
+				}
+			}
+		}
+		for _, a := range x.Args {
+			if walk(a) {
+				return true
+			}
+		}
+		return false
+	}
+	return walk(t)
 }
